@@ -141,7 +141,7 @@ def _other_number(s: str) -> str:
 def new_value(cls: type, fname: str, old: Any, hint: Any) -> Tuple[bool, Any]:
     """a value different from old and from the default, for the simple attribute kinds"""
     t, _opt = _strip_optional(hint)
-    if fname in SKIP_FIELDS or fname.endswith("_ref") or fname.endswith("_refs") or fname.endswith("_snref") or fname.endswith("_snrefs") or fname.endswith("_snpathref"):
+    if fname in SKIP_FIELDS or fname.endswith("_ref") or fname.endswith("_refs") or fname.endswith("_snref") or fname.endswith("_snrefs"):
         return False, None
     if (cls.__name__, fname) == ("EnvironmentData", "all_value"):
         return True, None if old else True          # ALL-VALUE is an empty element: present or absent
@@ -155,6 +155,8 @@ def new_value(cls: type, fname: str, old: Any, hint: Any) -> Tuple[bool, Any]:
         return True, (old + 1) if isinstance(old, int) else 3
     if isinstance(old, float) or t is float:
         return True, (old + 1.0 / 1024) if isinstance(old, float) else 1234567.0009765625
+    if fname.endswith("_snpathref"):
+        return True, "x.y" if old != "x.y" else "x.z"      # a path of short names
     if isinstance(old, str) or t is str:
         if cls.__name__ == "Description" and fname == "text":
             return True, DESCRIPTION_TEXT
@@ -189,6 +191,40 @@ def sites(db: Any) -> Iterator[Tuple[str, Any, str, Any, Any]]:
                     if ok:
                         done[key] = done.get(key, 0) + 1
                         yield (f"{path}.{f.name}", o, f.name, v, hints.get(f.name))
+                yield from walk(v, f"{path}.{f.name}")
+        elif isinstance(o, (list, tuple)):
+            for i, x in enumerate(o):
+                nm = getattr(x, "short_name", None)
+                yield from walk(x, f"{path}[{nm if isinstance(nm, str) else i}]")
+        elif isinstance(o, dict):
+            for k, x in o.items():
+                yield from walk(x, f"{path}{{{k}}}")
+    for k, r in roots(db):
+        yield from walk(r, k)
+
+
+def list_sites(db: Any) -> Iterator[Tuple[str, Any, str]]:
+    """(path, object, field) for the first non-empty list of references / short names of every (class, field): emptying it
+    leaves a valid, different document (e.g. an AUDIENCE that consists of flags only)"""
+    seen_ids: set = set()  # type: ignore[type-arg]
+    done: set = set()      # type: ignore[type-arg]
+
+    def leaf(x: Any) -> bool:
+        return isinstance(x, str) or type(x).__name__ == "OdxLinkRef"
+
+    def walk(o: Any, path: str) -> Iterator[Tuple[str, Any, str]]:
+        if _is_dc(o):
+            if id(o) in seen_ids:
+                return
+            seen_ids.add(id(o))
+            for f in dataclasses.fields(o):
+                if not f.compare:
+                    continue
+                v = getattr(o, f.name)
+                if isinstance(v, list) and v and all(leaf(x) for x in v) and (type(o).__name__, f.name) not in done \
+                        and f.name not in ("doc_fragments", "ref_docs"):
+                    done.add((type(o).__name__, f.name))
+                    yield (f"{path}.{f.name}", o, f.name)
                 yield from walk(v, f"{path}.{f.name}")
         elif isinstance(o, (list, tuple)):
             for i, x in enumerate(o):
